@@ -533,3 +533,31 @@ def tuple_names(node):
         else:
             out.append(unparse(e))
     return out
+
+
+def tuple_agreement(producer, consumer, norm=None):
+    """
+    SIB: positional-with-names agreement between a returned tuple and its unpack target.
+    Returns (ok, detail). A trailing starred target absorbs extra elements. An alarm needs either an arity
+    mismatch or a name that occurs on both sides at different positions (a swap) — never a mere rename.
+    """
+    norm = norm or (lambda s: s)
+    if producer is None or consumer is None:
+        return None, "tuple not recognised"
+    cons = list(consumer)
+    star = [i for i, c in enumerate(cons) if c.startswith("*")]
+    if star:
+        i = star[0]
+        if i != len(cons) - 1:
+            return None, "starred target not last"
+        cons = cons[:i]
+        if len(producer) < len(cons):
+            return False, f"producer yields {len(producer)} values, consumer needs at least {len(cons)}"
+        prod = list(producer)[:len(cons)]
+    else:
+        prod = list(producer)
+        if len(prod) != len(cons):
+            return False, f"producer yields {len(prod)} values, consumer unpacks {len(cons)}"
+    pn, cn = [norm(x) for x in prod], [norm(x) for x in cons]
+    swaps = [(prod[i], cons[i]) for i in range(len(cons)) if pn[i] != cn[i] and (pn[i] in cn or cn[i] in pn)]
+    return (not swaps), (f"swapped positions {swaps}" if swaps else f"{len(cons)} positions agree")
